@@ -81,7 +81,7 @@ PROPS = {
                      "Sqlize.C01.indexes_with_dropped_columns", "Sqlize.Abs.Idx.plan_correct", "Sqlize.Abs.Idx.emitSup_correct", "Sqlize.Abs.Idx.dropCols_idxs",
                      "Sqlize.Table.walkIdx_refines_sup", "Sqlize.Spec.execAll_wf",
                      "Sqlize.C01.equal_column_untouched", "Sqlize.Table.walkCols_about", "Sqlize.Table.diffCols1_unchanged_mem",
-                     "Sqlize.C01.schema_on_reference_engine", "Sqlize.schema_spec_up", "Sqlize.table_stmts_justified", "Sqlize.execAll_groups", "Sqlize.Migration.migrate_groups", "Sqlize.created_table_spec", "Sqlize.exec_added_idxs", "Sqlize.table_spec_up_any",
+                     "Sqlize.C01.schema_on_reference_engine", "Sqlize.schema_spec_up", "Sqlize.table_stmts_justified", "Sqlize.execAll_groups", "Sqlize.Migration.migrate_groups", "Sqlize.created_table_spec", "Sqlize.exec_added_idxs", "Sqlize.exec_added_fks", "Sqlize.table_spec_up_any", "Sqlize.table_spec_up_fk_any", "Sqlize.fk_stmts_justified", "Sqlize.Abs.Idx.emitKeepSup_correct", "Sqlize.Table.walkFk_refines_sup", "Sqlize.fks_with_drops_end_to_end", "Sqlize.execAll_fkwf", "Sqlize.execAll_fk",
                      "Sqlize.C01.table_on_reference_engine", "Sqlize.table_spec_up", "Sqlize.execAll_of_colExecAll_full", "Sqlize.exec_idx_step", "Sqlize.execAll_idx", "Sqlize.Spec.execAll_pkin", "Sqlize.Table.walkCols_dropNames",
                      "Sqlize.C01.columns_on_reference_engine", "Sqlize.columns_spec_up", "Sqlize.colExecAll_of_abs", "Sqlize.colExecAll_set", "Sqlize.execAll_of_colExecAll", "Sqlize.added_column_def", "Sqlize.Table.walkCols_stmtCols",
                      "Sqlize.C01.changed_column_modified", "Sqlize.perm_of_not_changed", "Sqlize.ckey_inj", "Sqlize.Table.diff_like", "Sqlize.Table.walkCols_modify",
@@ -105,10 +105,10 @@ PROPS = {
                        "step, leaves the table with a column list equal to the new side's (names, order, types, options up to order) and every other table untouched "
                        "(columns_on_reference_engine; no inline PRIMARY KEY, common columns in the same relative order), and with the index statements after them the table also "
                        "ends with the new side's indexes up to order and its primary key (table_on_reference_engine; same key on both sides, outside the recorded finding); "
-                       "and for whole schemas of any size without foreign keys: the printed up migration (CREATE TABLE + indexes + key for new tables, column and index statements for "
-                       "common tables, DROP TABLE for old ones) executed by Spec.execAll on the old schema is well-formed at every step and ends in a schema DB.equiv to the new one "
+                       "and for whole schemas of any size, foreign keys included (no key found on both sides of a table redefined = the recorded finding foreign-key-redefined): the printed up migration (CREATE TABLE + indexes + key + ADD CONSTRAINT for new tables, column, index and foreign-key statements for "
+                       "common tables — the key walk with its dropped-column list is Abs.Idx.emitKeepSup and runs from what DROP COLUMN leaves of the old keys, table_spec_up_fk_any —, DROP TABLE for old ones) executed by Spec.execAll on the old schema is well-formed at every step and ends in a schema DB.equiv to the new one "
                        "and every printed statement acts on an element that differs between the two schemas: the executable predicate Spec.c01 (migrates + allJustified, referential checks aside) "
-                       "returns ok (schema_on_reference_engine: the property itself on that scope). Not proved: a changed primary key (recorded finding), the lift from one table to the whole schema, "
+                       "returns ok (schema_on_reference_engine: the property itself on that scope). Not proved: a changed primary key (recorded finding), a foreign key redefined under its name (recorded finding), the engine's referential checks (statement order across tables, recorded finding), "
                        "other dialects; the full statement Sqlize.C01.Statement(_partial) is decided on "
                        "every run by correspondence (model = code on state and text) plus the "
                        "executable predicate Spec.c01 (reference DDL engine) on the migration text the Go code printed.",
@@ -123,7 +123,7 @@ PROPS = {
                      "Sqlize.C02.tables_from_scripts", "Sqlize.Migration.migrate_tbl_down", "Sqlize.C02.changed_column_reverted",
                      "Sqlize.C02.columns_on_reference_engine", "Sqlize.columns_spec_down", "Sqlize.removed_column_def", "Sqlize.Table.diffCols2_mem_full",
                      "Sqlize.C02.indexes_with_dropped_columns", "Sqlize.Abs.Idx.emitDownSup_correct", "Sqlize.Table.walkIdx_refines_down_sup",
-                     "Sqlize.equal_pk_untouched_down", "Sqlize.table_spec_down_any", "Sqlize.table_stmts_justified_down", "Sqlize.loaded_table_spec",
+                     "Sqlize.equal_pk_untouched_down", "Sqlize.table_spec_down_any", "Sqlize.table_spec_down_fk_any", "Sqlize.fk_stmts_justified_down", "Sqlize.Abs.Idx.emitDownKeepSup_correct", "Sqlize.Table.walkFk_refines_down_sup", "Sqlize.fks_with_drops_end_to_end_down", "Sqlize.execAll_fkwf", "Sqlize.table_stmts_justified_down", "Sqlize.loaded_table_spec",
                      "Sqlize.schema_spec_down", "Sqlize.C02.schema_on_reference_engine", "Sqlize.C02.up_then_down_on_reference_engine", "Sqlize.proved_down", "Sqlize.Tie.element_skeleton_as_modelled", "Sqlize.Tie.api_load_skeleton_as_modelled", "Sqlize.C02.schema_on_reference_engine_either_setting", "Sqlize.schema_down_any"],
         "suites": [{"name": "pair"}],
         "corr_points": ["load-old", "load-new", "state-old", "state-new", "Diff", "state-diff", "StringUp", "StringDown"],
@@ -137,10 +137,10 @@ PROPS = {
                        "key list into the old one unless a key is redefined in place (indexes_and_keys_from_scripts); a changed column is modified back to the old definition "
                        "(changed_column_reverted); composed on the reference engine: Spec.execAll of the printed down column statements on the new schema is well-formed at every step and "
                        "leaves the table with a column list equal to the old side's, other tables untouched (columns_on_reference_engine); the index statements printed when the down "
-                       "migration drops columns are Abs.Idx.emitDownSup and turn what DROP COLUMN leaves of the new index list into the old one (indexes_with_dropped_columns); and for whole schemas without foreign keys, "
+                       "migration drops columns are Abs.Idx.emitDownSup and turn what DROP COLUMN leaves of the new index list into the old one (indexes_with_dropped_columns); and for whole schemas, foreign keys included (no key redefined under its name), without "
                        "inline PRIMARY KEY, tables on both sides order-compatible with the same primary key and outside the recorded region: the executable predicate Spec.c02 itself "
                        "returns ok on the printed down migration (schema_on_reference_engine), and with the C01 theorem down undoes up on the reference engine (up_then_down_on_reference_engine). Remaining parts of "
-                       "Sqlize.C02.Statement_partial (a changed primary key, foreign keys on the reference engine, other dialects) are decided by correspondence + Spec.c02 on the Go output.",
+                       "Sqlize.C02.Statement_partial (a changed primary key, the engine's referential checks, other dialects) are decided by correspondence + Spec.c02 on the Go output.",
     },
     "C03": {
         "level": "proof",
@@ -371,7 +371,7 @@ PROPS = {
         "assumptions": ["file timestamps strictly increase (one write per second)", "old is not re-used after Diff"],
         "explanation": "Proved for histories of any length: convergence, empty next diff, equal fingerprint and the way back, as an assume-guarantee "
                        "composition of the one-step properties; and on the implementation model itself, without assuming them (model_converges, model_next_diff_empty): "
-                       "for revision lists of any length whose steps are inside the scope of C01.schema_on_reference_engine (MySQL reader model, no foreign keys / inline PRIMARY KEY), "
+                       "for revision lists of any length whose steps are inside the scope of C01.schema_on_reference_engine (MySQL reader model, no inline PRIMARY KEY, no foreign key redefined under its name), "
                        "the history the workflow writes (each printed up migration appended as it reaches the text) is computed without error, is accepted by the reference engine "
                        "statement by statement, describes a schema DB.equiv to the newest revision's, and the next diff is empty both ways; and with the hypotheses of the C02 theorem at every step as well, "
                        "replaying the recorded down migrations newest first from the newest revision's schema is well-formed at every statement and ends in the empty schema (model_down_returns; the steps compose because the reference engine "
